@@ -21,6 +21,7 @@ DOC = {
  "C09.R4": "deadline plumbing: the duration given to the crate's timeout and the Some(duration) tested originate from the function's timeout parameter; the port's From impls store it unchanged",
  "C09.R5": "multi_call: index and receiver of each spawned wait come from the same enumerate item; the result vector is written only by resize_with and indexing with the index returned by that wait",
  "C09.R6": "call_and_forward: the forwarding send is a single call inside the closure given to CallResult::map (Success only), not in a cycle",
+ "C09.R8": "internal_call: the send result is checked (`sent?`) before the reply is awaited (a refused message keeps its reply port alive, so waiting would hang); build+send happen once before the wait block",
  "C09.R7": "= C08.R5 / C07.R6: exiting actors flush queued requests (closing their reply ports); refused sends hand the message (with its port) back",
 }
 
@@ -274,6 +275,33 @@ def r6(run, db):
         run.check(good, "map-on-success-only", "CallResult::map applies the mapping only to Success", "CallResult::map applies the mapping on other variants", g.where())
 
 
+def r8(run, db):
+    """a failed send must return at once: the Err carries the message and with it the reply port, so awaiting the receiver
+    while that value is alive would never complete"""
+    f = db.fn("ractor::rpc::internal_call::{closure#0}")
+    if f is None:
+        run.fail("anchor:internal_call wait block", "internal_call::{closure#0} not found")
+        return
+    run.saw(len(f.blocks), f)
+    brs = [c for c in f.calls() if c.matches(r"ops::Try>::branch$|Try::branch$") and any(r["k"] == "upvar" for r in f.origins(c.args[0]))]
+    run.check(len(brs) == 1, "send-result-checked", "the wait block checks the send result (`sent?`) once", "the wait block does not check the send result", f.where())
+    if brs:
+        t = f.term(brs[0].target)
+        cont = None
+        if t["k"] == "switch":
+            info = f.switch_info(f.term_site(brs[0].target))
+            cont = (brs[0].target, info["edges"].get("Continue"))
+        for a in awaits(f):
+            run.check(cont and f.edge_dominates(cont, a.poll.site), "await-only-after-send-ok@%d" % a.poll.bb, "every await of the reply lies on the Ok edge of the send result",
+                      "the reply is awaited although the send failed: the refused message (and the reply port inside it) is still alive, so the caller hangs", a.poll.where())
+    # internal_call itself: the send happens before the wait block is created, exactly once
+    g = db.fn("ractor::rpc::internal_call")
+    if g:
+        snd = [c for c in g.calls() if c.matches(r"ops::Fn::call$|ops::FnOnce::call_once$|ops::FnMut::call_mut$")]
+        cs = creation_sites(db, f)
+        run.check(len(snd) == 2 and cs and all(g.dominates(c.site, cs[0][1]) for c in snd) and not any(g.in_cycle(c.site) for c in snd), "send-before-wait", "the message is built and sent exactly once, before the wait block exists", "internal_call send/build shape changed", g.where())
+
+
 def r7(run, db):
     c08.r5(run, db)
     from . import c07
@@ -282,7 +310,7 @@ def r7(run, db):
 
 Q = ["dflt", "rc"]
 TH = ["dflt", "rc", "atr", "astd"]
-RULES = [{"id": "C09.R%d" % i, "fn": f, "quick": Q, "thorough": TH} for i, f in enumerate([r1, r2, r3, r4, r5, r6, r7], 1)]
+RULES = [{"id": "C09.R%d" % i, "fn": f, "quick": Q, "thorough": TH} for i, f in enumerate([r1, r2, r3, r4, r5, r6, r7, r8], 1)]
 from .etype import witness_rule
 RULES.append({"id": "C09.W", "fn": witness_rule(['W1ReplyOnce', 'W2ReplyNoClone']), "quick": [], "thorough": [], "no_db": True})
 DOC["C09.W"] = 'E-TYPE witnesses W1 (second send on a reply port is E0382) and W2 (clone of a reply port is E0599), each with a compiling twin'
